@@ -366,7 +366,36 @@ func (s *coreSim) drain(limit uint32, useUpdate bool) int {
 	var nextFlush [2]uint32
 	nextFlush[0], nextFlush[1] = s.now, s.now
 	s.pend[0], s.pend[1] = nil, nil // whatever is still in flight is lost
+	// c02_round_progress (proved): on a healed network with the reader reading, ONE retransmission of
+	// the oldest unacknowledged segment advances snd_una.  Three without any advance = wedge.
+	var baseUna [2]uint32
+	var baseXmit [2]uint32
+	headXmit := func(e int) (uint32, bool) {
+		var x uint32
+		ok := false
+		s.k[e].snd_buf.ForEach(func(g *segment) bool {
+			if g.acked == 0 {
+				x, ok = g.xmit, true
+				return false
+			}
+			return true
+		})
+		return x, ok
+	}
+	for e := 0; e < 2; e++ {
+		baseUna[e] = s.k[e].snd_una
+		baseXmit[e], _ = headXmit(e)
+	}
 	for s.now-start < limit && !s.dead {
+		for e := 0; e < 2; e++ {
+			x, ok := headXmit(e)
+			if s.k[e].snd_una != baseUna[e] || !ok {
+				baseUna[e], baseXmit[e] = s.k[e].snd_una, x
+			} else if x >= baseXmit[e]+3 && x > 3 {
+				s.stats["heal-no-progress-exit"]++
+				return -1
+			}
+		}
 		for e := 0; e < 2 && !s.dead; e++ {
 			if useUpdate {
 				if int32(s.now-s.k[e].Check()) >= 0 {
@@ -394,8 +423,16 @@ func (s *coreSim) drain(limit uint32, useUpdate bool) int {
 			len(s.k[0].acklist) == 0 && len(s.k[1].acklist) == 0 {
 			return int(s.now - start)
 		}
-		// jump to the next instant at which a driver has something to do
+		// quiescent for ever: nothing unacknowledged, no probe timer, no pending ack, nothing in flight
+		if s.quiescent() {
+			return -1
+		}
+		// jump to the next instant at which a driver has something to do; when the earliest armed timer
+		// (retransmission, window probe) is far away, idle flushes in between change nothing
 		next := s.now + 1000
+		if w, ok := s.earliestTimer(); ok && int32(w-next) > 0 {
+			next = w
+		}
 		for e := 0; e < 2; e++ {
 			t := nextFlush[e]
 			if useUpdate {
@@ -411,6 +448,66 @@ func (s *coreSim) drain(limit uint32, useUpdate bool) int {
 		s.setNow(next)
 	}
 	return -1
+}
+
+// earliestTimer: the earliest armed retransmission or probe deadline of either endpoint.
+func (s *coreSim) earliestTimer() (uint32, bool) {
+	var best uint32
+	found := false
+	consider := func(t uint32) {
+		if !found || int32(t-best) < 0 {
+			best, found = t, true
+		}
+	}
+	for e := 0; e < 2; e++ {
+		k := s.k[e]
+		k.snd_buf.ForEach(func(g *segment) bool {
+			if g.acked == 0 {
+				consider(g.resendts)
+			}
+			return true
+		})
+		if k.rmt_wnd == 0 && k.probe_wait != 0 {
+			consider(k.ts_probe)
+		}
+		if k.rmt_wnd == 0 && k.probe_wait == 0 {
+			consider(s.now + 1) // the next flush arms the probe timer
+		}
+		if k.snd_queue.Len() > 0 && k.rmt_wnd != 0 {
+			consider(s.now + uint32(k.interval)) // admission is possible at the next flush
+		}
+	}
+	return best, found
+}
+
+// quiescent: no endpoint will ever transmit again on its own.
+func (s *coreSim) quiescent() bool {
+	if len(s.pend[0]) > 0 || len(s.pend[1]) > 0 {
+		return false
+	}
+	for e := 0; e < 2; e++ {
+		k := s.k[e]
+		if len(k.acklist) > 0 || k.probe != 0 || k.rmt_wnd == 0 {
+			return false
+		}
+		unacked := false
+		k.snd_buf.ForEach(func(g *segment) bool {
+			if g.acked == 0 {
+				unacked = true
+			}
+			return !unacked
+		})
+		if unacked {
+			return false
+		}
+		if k.snd_queue.Len() > 0 && (k.nocwnd != 0 || k.cwnd > 0 || k.snd_buf.Len() == 0) && uint32(k.snd_buf.Len()) < min(k.snd_wnd, k.rmt_wnd) {
+			return false // a flush can still admit queued data
+		}
+		if k.PeekSize() >= 0 {
+			return false
+		}
+	}
+	return true
 }
 
 func defaultProfile() coreProfile {
